@@ -38,7 +38,7 @@ THEOREMS = [P + t for t in (
     "kernel_cell_exact", "kernel_cell_algebraic", "kernel_diag_exact",
     "kernel_diag_degenerate_partial",
     "bath_steps_round", "bath_last_time_step", "bath_int_conversions_listed", "bath_steps_literals",
-    "occupation_axis", "initial_contribution",
+    "occupation_axis", "initial_contribution", "band_widths",
 )]
 
 GRIDS = [("0.0", "0.1"), ("0.5", "0.2"), ("-0.3", "0.05"), ("1.7", "0.3")]
@@ -798,17 +798,18 @@ def displaced_oscillator(rig, c_exact):
     def n_th(w):
         return 1.0 / (np.exp(w / temp) - 1.0) if temp > 0 else 0.0
 
-    def occupation(t, w):
-        return c_exact * rig.corr.spectral_density(w) / w ** 2 * (2 - 2 * np.cos(w * t)) + n_th(w)
+    def occupation(t, w, dw=1.0):
+        return dw * c_exact * rig.corr.spectral_density(w) / w ** 2 * (2 - 2 * np.cos(w * t)) + n_th(w)
 
-    def correlation(t1, t2, w1, w2, dagg, change_only=True):
+    def correlation(t1, t2, w1, w2, dagg, change_only=True, dw=(1.0, 1.0)):
         """<a^{dagg[0]}_{w2}(t2) a^{dagg[1]}_{w1}(t1)>: displacement part, plus -- for one and the same
         mode and unless only the change is asked for -- the free part n_th e^{iw(t2-t1)} of <a'a>
         resp. (n_th + 1) e^{-iw(t2-t1)} of <a a'>"""
         g1, g2 = rig.corr.spectral_density(w1) ** 0.5, rig.corr.spectral_density(w2) ** 0.5
         p1 = np.exp(1j * (2 * dagg[1] - 1) * w1 * t1)
         p2 = np.exp(1j * (2 * dagg[0] - 1) * w2 * t2)
-        r = c_exact * (p1 * p2 - p1 - p2 + 1) * g1 * g2 / (w1 * w2)
+        # band of width dw[0] around w1 (earlier operator), width dw[1] around w2
+        r = dw[0] * dw[1] * c_exact * (p1 * p2 - p1 - p2 + 1) * g1 * g2 / (w1 * w2)
         if not change_only and w1 == w2 and tuple(dagg) in ((1, 0), (0, 1)):
             r += (n_th(w1) + (1.0 if tuple(dagg) == (0, 1) else 0.0)) * p1 * p2
         return r
@@ -930,6 +931,18 @@ def oracle_initial_terms(report, temps, nsteps=4):
                        {"api": "TwoTimeBathCorrelations.correlation", "temperature": temp, "freq_1": w1,
                         "time_1": t1, "freq_2": w2, "time_2": t2, "dagg": list(dagg), "change_only": co,
                         "got": repr(complex(num)), "displaced_oscillator_closed_form": repr(complex(ref))})
+            # unequal band widths: the displacement part scales with dw[0]*dw[1], the free part not
+            dw = (0.5, 0.125)
+            num = rig.obj.correlation(w1, t1, w2, t2, dw=dw, dagg=dagg, change_only=co,
+                                      progress_type="silent")
+            ref = corr_ref(t1, t2, w1, w2, dagg, change_only=co, dw=dw)
+            if not abs(num - ref) < 1e-6 * dw[0] * dw[1]:
+                report("bath-band-widths", "bath-correlation-band-widths:dw=%r T=%r dagg=%s freq_1=%r "
+                       "freq_2=%r change_only=%s" % (dw, temp, dagg, w1, w2, co),
+                       {"api": "TwoTimeBathCorrelations.correlation", "temperature": temp, "dw": list(dw),
+                        "freq_1": w1, "time_1": t1, "freq_2": w2, "time_2": t2, "dagg": list(dagg),
+                        "change_only": co, "got": repr(complex(num)),
+                        "displaced_oscillator_closed_form": repr(complex(ref))})
         a = rig.obj.correlation(1.0, 0.4, 1.0, 0.4, dagg=(0, 1), progress_type="silent")
         b = rig.obj.correlation(1.0, 0.4, 1.0, 0.4, dagg=(1, 0), progress_type="silent")
         if not abs((a - b) - 1.0) < 1e-9:
@@ -938,13 +951,14 @@ def oracle_initial_terms(report, temps, nsteps=4):
                    {"api": "TwoTimeBathCorrelations.correlation", "temperature": temp, "freq": 1.0,
                     "time": 0.4, "a_adag": repr(complex(a)), "adag_a": repr(complex(b)),
                     "commutator": repr(complex(a - b)), "expected": 1.0})
-        for co in (False, True):
-            tl, occ = rig.obj.occupation(1.0, change_only=co, progress_type="silent")
-            want = occ_ref(np.asarray(tl)[:len(occ)], 1.0) - (occ_ref(0.0, 1.0) if co else 0.0)
+        for co, dwo in itertools.product((False, True), (1.0, 0.25)):
+            tl, occ = rig.obj.occupation(1.0, dw=dwo, change_only=co, progress_type="silent")
+            want = occ_ref(np.asarray(tl)[:len(occ)], 1.0, dwo) - (occ_ref(0.0, 1.0, dwo) if co else 0.0)
             if not np.abs(occ - want).max() < 1e-6:
-                report("bath-occupation-initial", "bath-occupation-initial:T=%r change_only=%s" % (temp, co),
+                cls = "bath-occupation-initial" if dwo == 1.0 else "bath-occupation-band-width"
+                report(cls, "%s:T=%r change_only=%s dw=%r" % (cls, temp, co, dwo),
                        {"api": "TwoTimeBathCorrelations.occupation", "temperature": temp, "freq": 1.0,
-                        "change_only": co, "got": [float(x) for x in occ],
+                        "dw": dwo, "change_only": co, "got": [float(x) for x in occ],
                         "displaced_oscillator_closed_form": [float(x) for x in np.atleast_1d(want)]})
 
 
